@@ -152,11 +152,12 @@ class TriggerHandler:
 
     def start(self):
         """Start the trigger handler."""
-        self.__shutdown = False
         # if we call settrace we cannot use debugger,
         # so we allow the settrace to be disabled, so we can at least debug around it
         if self.__no_trace():
+            # (an agent that was live before stays shut down: threads that still carry its function leave by it)
             return
+        self.__shutdown = False
         # remembered here: this is looked at on every trace event after shutdown, where we must not go through the
         # config (an unknown key is logged, and we may be called from inside the logging module)
         self.__hooks_installed = True
